@@ -266,7 +266,7 @@ def core_shard(seed: int, shard: int, n: int, opts: dict) -> dict:
                     stats["err_kinds"][node["err"]["e"]] += 1
             if "valid" in o and c["v"]["k"] not in ("always",):
                 nontrivial = True
-            df = engine.diff_obs(real[m], model[m], fields, unordered_trace='"setFromList"' in json.dumps(c["v"]))
+            df = engine.diff_obs(real[m], model[m], fields, unordered_trace='"setFromList"' in json.dumps([c["v"], c.get("env")]))
             if df:
                 disagreements.append({"case": c, "mode": m, "fields": df, "real": real[m], "model": model[m],
                                       "xd": real["xd"]})
